@@ -124,3 +124,16 @@ package core
 
 //@ func (*LinearState).doFindRules
 //@   assert[C07.lin_findrules_never_emits_expired] at "acc[id]": !expiredAt(rf.M, now)
+
+// ghost: id of an expired stored record whose removal from storage is still owed by Load
+//@ ghost owed string
+//@ func (*IndexedState).add
+//@   ghost-ensures ite(is(result1, *ExpiredError), owed == id, owed == old(owed))
+//@   also-modifies owed
+//@ iface Storage.Remove
+//@   ghost-ensures ite(result1 == nil && old(str(k)) == old(owed), owed == "", owed == old(owed))
+//@   also-modifies owed
+//@ func (*IndexedState).Load
+//@   assume-entry owed == ""
+//@   loop 1: invariant[C07.ix_load_purges_expired] owed == ""
+//@   ensures[C07.ix_load_purges_expired_exit] result == nil ==> owed == ""
